@@ -585,10 +585,10 @@ fn c05_written_index_n4_b3() {
 #[kani::stub(std::hash::RandomState::new, fixed_random_state)]
 fn c09_chrom_tree_layout() {
     let (sa, sb): (u32, u32) = (kani::any(), kani::any());
-    let mut sizes: std::collections::HashMap<String, u32> = std::collections::HashMap::new();
+    let mut sizes: HashMap<String, u32> = HashMap::new();
     sizes.insert(String::from("a"), sa);
     sizes.insert(String::from("bb"), sb);
-    let mut ids: std::collections::HashMap<String, u32> = std::collections::HashMap::new();
+    let mut ids: HashMap<String, u32> = HashMap::new();
     ids.insert(String::from("a"), 0);
     let mut st = Stats::new(0);
     let mut file = BufWriter::with_capacity(128, Sink(&mut st as *mut Stats));
@@ -726,10 +726,10 @@ fn c13_rtreeindex_empty_terminates() {
 #[kani::stub(std::hash::RandomState::new, fixed_random_state)]
 fn c09_chrom_tree_two() {
     let (sa, sb): (u32, u32) = (kani::any(), kani::any());
-    let mut sizes: std::collections::HashMap<String, u32> = std::collections::HashMap::new();
+    let mut sizes: HashMap<String, u32> = HashMap::new();
     sizes.insert(String::from("a"), sa);
     sizes.insert(String::from("bb"), sb);
-    let mut ids: std::collections::HashMap<String, u32> = std::collections::HashMap::new();
+    let mut ids: HashMap<String, u32> = HashMap::new();
     ids.insert(String::from("bb"), 0);
     ids.insert(String::from("a"), 1);
     let mut st = Stats::new(0);
@@ -751,5 +751,61 @@ fn c09_chrom_tree_two() {
     assert!(d[46] == b'a' && d[47] == 0 && rd32(d, 48) == 1 && rd32(d, 52) == sa, "[ct_item1] second chromosome item: key must be the name padded with NULs");
     assert!(st.len == 56, "[ct_len] chromosome tree length");
     let c1 = sa != sb;
+    kani::cover!(c1, "sizes differ");
+}
+
+// @harness c09_chrom_tree_three
+// @props C09 C01 C02
+// @tier off
+// @kind core
+// @timeout 1800
+// @mem 16
+// @sub src/bbi/bbiwrite.rs ::: use std::collections::{BTreeMap, HashMap}; ::: use std::collections::BTreeMap; use crate::verif_support::hmap::HashMap; ||| src/bbi/bbiwrite.rs ::: chrom_sizes: std::collections::HashMap<String, u32>, ::: chrom_sizes: HashMap<String, u32>, ||| src/bbi/bbiwrite.rs ::: chrom_ids: &std::collections::HashMap<String, u32>, ::: chrom_ids: &HashMap<String, u32>, ||| src/bbi/bigwigwrite.rs ::: use std::collections::HashMap; ::: use crate::verif_support::hmap::HashMap; ::: 2 ||| src/bbi/bigbedwrite.rs ::: use std::collections::HashMap; ::: use crate::verif_support::hmap::HashMap; ||| src/utils/idmap.rs ::: use std::collections::HashMap; ::: use crate::verif_support::hmap::HashMap;
+// @functions bbiwrite::write_chrom_tree (through std BufWriter) and utils::idmap::IdMap::get_id / get_map, with std HashMap replaced by the association-list model verif_support::hmap in the scratch copy (six import/type substitutions)
+// @bounds 3 chromosomes with data whose ids come from IdMap in first-seen order "ccc", "a", "bb" (name lengths 3, 1, 2: a shorter key after a longer one), looked up again afterwards; the size table lists them in another order plus a chromosome without data ("zz"); sizes symbolic, full width
+// @stubs alloc::fmt::format -> empty; core::ptr::copy_nonoverlapping -> element-wise typed copy loop (same contract; keeps the ids compared by the insertion sort constant)
+// @assumes std's HashMap behaves as a finite map with unspecified iteration order (the model iterates in reverse insertion order; it is not solver-checked against hashbrown, whose SIMD probing does not finish symbolic execution)
+// @cut more than 4 map entries; non-leaf chromosome tree nodes (the writer never produces them)
+// @witness cover: sizes differ
+#[kani::proof]
+#[kani::unwind(12)]
+#[kani::stub(core::ptr::copy_nonoverlapping, copy_typed_loop)]
+#[kani::stub(alloc::fmt::format, fake_format)]
+fn c09_chrom_tree_three() {
+    let (sa, sb, sc, sz): (u32, u32, u32, u32) = (kani::any(), kani::any(), kani::any(), kani::any());
+    let mut sizes: HashMap<String, u32> = HashMap::new();
+    sizes.insert(String::from("a"), sa);
+    sizes.insert(String::from("zz"), sz);
+    sizes.insert(String::from("bb"), sb);
+    sizes.insert(String::from("ccc"), sc);
+    let mut idmap = crate::utils::idmap::IdMap::default();
+    let i0 = idmap.get_id("ccc");
+    let i1 = idmap.get_id("a");
+    let i0b = idmap.get_id("ccc");
+    let i2 = idmap.get_id("bb");
+    let i1b = idmap.get_id("a");
+    assert!(i0 == 0 && i1 == 1 && i2 == 2 && i0b == 0 && i1b == 1, "[ids] chromosome ids must be dense, in first-seen order, and stable");
+    let ids = idmap.get_map();
+    let mut st = Stats::new(0);
+    let mut file = BufWriter::with_capacity(128, Sink(&mut st as *mut Stats));
+    let r = write_chrom_tree(&mut file, sizes, &ids);
+    let ok = r.is_ok();
+    core::mem::forget(r);
+    let fl = file.flush();
+    let ok2 = fl.is_ok();
+    core::mem::forget(fl);
+    core::mem::forget(file);
+    core::mem::forget(ids);
+    assert!(ok && ok2, "[ok] write_chrom_tree failed on a healthy destination");
+    let d = &st.data;
+    assert!(rd32(d, 0) == 0x78CA_8C91 && rd32(d, 8) == 3 && rd32(d, 12) == 8 && rd64(d, 24) == 0, "[ct_header] chromosome tree header (magic, key size = longest name, value size, reserved)");
+    assert!(rd64(d, 16) == 3, "[ct_itemcount] item count must equal the number of chromosomes stored in the tree");
+    assert!(rd32(d, 4) >= 3, "[ct_blocksize] block size must be at least the number of items in the single leaf");
+    assert!(d[32] == 1 && d[33] == 0 && rd16(d, 34) == 3, "[ct_leaf] leaf node header (isLeaf, reserved, count)");
+    assert!(d[36] == b'c' && d[37] == b'c' && d[38] == b'c' && rd32(d, 39) == 0 && rd32(d, 43) == sc, "[ct_item0] first chromosome item (name, id, size)");
+    assert!(d[47] == b'a' && d[48] == 0 && d[49] == 0 && rd32(d, 50) == 1 && rd32(d, 54) == sa, "[ct_item1] second item: items in id order, key = name padded with NULs");
+    assert!(d[58] == b'b' && d[59] == b'b' && d[60] == 0 && rd32(d, 61) == 2 && rd32(d, 65) == sb, "[ct_item2] third item: key = name padded with NULs");
+    assert!(st.len == 69, "[ct_len] chromosome tree length");
+    let c1 = (sa != sb) & (sb != sc);
     kani::cover!(c1, "sizes differ");
 }
